@@ -70,6 +70,18 @@
 //     does not fit in the first MiB is not recognised as FASTQ by the readers
 //     ("guessed format text/plain ... not yet implemented"), which concerns the
 //     reading side, not the writers.
+//   - Long backlogs (backlog_test.go): the statement puts no bound on the number
+//     of chunks that wait for a late one, nor on the number of formatting
+//     workers: thousands of chunks parked behind one chunk, with holes, are in the
+//     domain.  With several workers the arrival order is forced by holding
+//     chosen batches back INSIDE their formatting worker (an annotation value
+//     whose text form is produced late); the text written is the same as for the
+//     plain integer.  The harness type is formatted once on one goroutine before
+//     the first gated run (goccy/go-json compiles encoders at first use in an
+//     unsynchronised cache; two workers meeting a NEW type at the same moment
+//     garbled a record about once in 40 fresh processes - an artefact of the
+//     type brought by the harness, the types of the repository showed nothing in
+//     600 fresh processes).
 package c04
 
 import (
@@ -91,7 +103,8 @@ func TestMain(m *testing.M) {
 		"TestPropHugeChunks: the same writers (WriteSeqFileChunk placed in front of the real obiutils.CompressStream wrapper) x 1..6 batches of a few long records (case = record lengths; sequences rebuilt from batch, index, length) whose formatted chunks are 0 bytes, < 4 KiB, around 4 KiB, 5..60 KiB, around 64 KiB, 0.1..0.9 MiB, around 1 MiB (-1, 0, +1 exactly for the chunk writer), 1..2 MiB, around 4 MiB, 4..5 MiB, in the patterns free / small..HUGE..small / HUGE first / alternating / all huge x arrival permutation x gzip (3 in 4) x CloseFile; same oracle; non-trivial = a chunk of >= 64 KiB is written after a smaller non-empty write (a smaller non-empty batch or the opening of the JSON array). "+
 		"TestPropReuseToFile: WriteSequencesToFile / WriteFastaToFile / WriteFastqToFile / WriteJSONToFile (1 in 4 with paired reads and WritePairedReadsTo) x content found at the path before the first run (absent, empty, random bytes / zeros / newlines of the length of the first output -4097..+70000) x 1..4 successive runs to the same path with shrinking / growing / equal / random outputs, per-run gzip and append flags, 1..4 workers; oracle: each run on a fresh path passes the oracle above, and the reused file is exactly [previous content if append +] the fresh output (gunzipped text compared when compressed: one complete gzip stream, nothing after it); non-trivial = some run finds a non-empty file at its path. "+
 		"TestPropCLICompress: obiconvert (FASTA/FASTQ/JSON output) / obigrep -l / obicsv -i -s [...] on 1..3 generated input files (a few records; 20..400 records; 0.5..4 MB of thousands of records; 1..5 sequences of 0.2..4 MB; FASTA one-line or folded, FASTQ) in the orders small+BIG, BIG, BIG+small, small+BIG+small, BIG+BIG, medium+BIG, stdout or -o, --max-cpu default/1/2/8; oracle: the run without -Z holds every (selected) input record once in input order (independent FASTA/FASTQ parsers, encoding/json array, encoding/csv header + rows), the run with -Z is one complete gzip stream of exactly the same bytes; non-trivial = an input file of >= 0.5 MB. "+
-		"TestPropCLIReuse: obiconvert -o (also --paired-with: _R1/_R2 files), obigrep -o --save-discarded, obidistribute -c -p [--append], with/without -Z and output format flags, 1..3 runs in one directory on inputs of shrinking / growing / equal / random sizes (1..300 records), directory optionally holding files of any content under the output names before the first run; oracle: after each run every output file equals what the same command line writes in an empty directory (previous content + that with --append); non-trivial = some run finds its output names in use.")
+		"TestPropCLIReuse: obiconvert -o (also --paired-with: _R1/_R2 files), obigrep -o --save-discarded, obidistribute -c -p [--append], with/without -Z and output format flags, 1..3 runs in one directory on inputs of shrinking / growing / equal / random sizes (1..300 records), directory optionally holding files of any content under the output names before the first run; oracle: after each run every output file equals what the same command line writes in an empty directory (previous content + that with --append); non-trivial = some run finds its output names in use. "+
+		"TestPropLongBacklog / TestPropGatedBacklog (backlog_test.go): histories of up to ~6000 batches (thorough: up to 140000) of 1..2 tiny records, stored compactly as (n, base order = identity or blocks of B numbers in decreasing order, displaced chunks {chunk, arrives right after chunk}) and rebuilt: 8..5000 chunks (thorough also 16384, 65536 +-1 and any size up to 70000; sizes drawn on 255..257, 1023..1027, 2047..2049, 4095..4097) parked behind ONE late chunk, with 0..3 holes inside the backlog (chunks that arrive just after the late one, or up to 60 chunks later), then 0..1100 further chunks; two such backlogs in a row; blocks in decreasing order (the list fills to B-1 and empties, again and again) with displaced chunks; 1..6 chunks displaced at random; one chunk more than 1020 positions early or late; empty batches every 2nd/3rd/7th; gzip, CloseFile, the 6 writers. Controlled = one formatting worker or WriteSeqFileChunk fed directly (arrival order = the rebuilt permutation). Gated = WriteFasta/WriteFastq/WriteJSON/WriteCSV/WriteSequence with 2..8 formatting workers, batches pushed in increasing number, at most workers-1 displaced batches held back inside their formatting worker (the text form of the annotation 'batch' of their first record is produced only when the returned iterator has delivered the batch they follow and as many batches as precede them in the rebuilt permutation): the backlog and the holes are guaranteed without any timing assumption. Same oracle. Non-trivial = the model of the waiting list reaches 256 waiting chunks and some drain stops at a hole (chunks left waiting behind a number that has not arrived).")
 	evid.Main(m, "C04")
 }
 
